@@ -259,6 +259,11 @@ def _worker_run(idx, payload):
         err = None
     except Exception:
         err = traceback.format_exc()
+    # every failure remembers the unit that produced it: a violation that depends on what the process did
+    # before (caches, shared state) cannot be replayed from its case alone, but can from its whole unit
+    for f in t.failures:
+        f.setdefault("unit", dict(config=_W.get("config"), payload=payload, prior=list(_W.setdefault("done", []))))
+    _W.setdefault("done", []).append(payload)
     cov = _W.get("cov")
     if cov is not None:
         try:
